@@ -81,6 +81,17 @@ def gen(tier, seed):
         for n in (2, 3):
             for op in TX.OPS:
                 cases.append(("N6", b0 + [('nsib', sym, op, [simple_stmt(tg, rng, 2, combos=False) for _ in range(n)])]))
+    # N8: sibling nested statements whose members hold a combination in parentheses of its own followed by other components
+    for _ in range(6 if tier == "quick" else 80):
+        sym = rng.choice(['Cac', 'Cex', 'Bdir', 'Bind'])
+
+        def member():
+            st = [('comp', 'A', '', '', ('leaf', tg.word())),
+                  ('comp', 'I', '', '', ('comb', '', ('sh', '', ('op', rng.choice(TX.OPS), ('leaf', tg.word()), ('leaf', tg.word())), ''), '')),
+                  ('comp', rng.choice(['Bdir', 'Cex'] if sym not in ('Bdir', 'Cex') else ['Bind', 'E']), '', '', ('leaf', tg.word()))]
+            rng.shuffle(st)
+            return st
+        cases.append(("N8", base() + [('nsib', sym, rng.choice(TX.OPS), [member() for _ in range(rng.choice([2, 2, 3]))])]))
     others = [x for x in TX.PAREN]
     for k, sym2 in enumerate(others):
         sym = syms[(seed + k) % len(syms)]
